@@ -15,18 +15,20 @@ open Grip Grip.C08
 
 /-! ## 1. IndexStartOptimize -/
 
-/-- `x.(string)` for every element of a `within` list; `none`: the type assertion panics
-    (a crash is C06's subject; C02's theorems are stated for `some`). -/
+/-- `s, ok := x.(string)` for every element of a `within` list; `none`: some element is not a
+    string (`extractHasVals` then gives up and returns no values). -/
 def strsOf : List JV → Option (List String)
   | [] => some []
   | .str s :: rest => (strsOf rest).map (s :: ·)
   | _ :: _ => none
 
-/-- `extractHasVals`: `none` = panic (`val.([]interface{})` / `x.(string)`). -/
+/-- `extractHasVals` (after `fix: extractHasVals no longer type-asserts the WITHIN value`): a
+    `within` whose value is not a list of strings yields no values, so the filter stays a filter.
+    The `Option` is kept for the callers' shape; the function never returns `none`. -/
 def extractHasVals : HasE → Option (List String)
   | .cond _ .eq (.str l) => some [l]
-  | .cond _ .within (.arr xs) => strsOf xs
-  | .cond _ .within _ => none
+  | .cond _ .within (.arr xs) => some ((strsOf xs).getD [])
+  | .cond _ .within _ => some []
   | _ => some []
 
 mutual
